@@ -10,6 +10,7 @@ RULE = ("cell = (digit layout (t,basebit), n_in, n_out, value population, entry 
 
 LAYOUTS = [(8, 2), (15, 2), (16, 1), (31, 1), (5, 6), (3, 10), (2, 15), (10, 3), (7, 4), (1, 1)]
 NOUTS = [1, 3, 8, 9]
+WIDE = [(1, 17), (1, 20), (1, 18)]
 
 
 def run(tier, seed, t0):
@@ -33,6 +34,15 @@ def run(tier, seed, t0):
             jobs.append(Job("multi-t%d-bb%d-%d-%d" % (t, bb, ni, no), "drv_c08", "optim", "spqlios-fma",
                             ["--mode", "multi", "--t", t, "--basebit", bb, "--n_in", ni, "--n_out", no,
                              "--reps", 4000 if thorough else 1000, "--seed", seed]))
+    # one wide digit (basebit > 16, hence t = 1): the table has 2^basebit rows per coefficient, so small dimensions only
+    for (t, bb) in WIDE:
+        for i in range(2):
+            jobs.append(Job("exact-wide-t%d-bb%d-no1-%d" % (t, bb, i), "drv_c08", "optim" if i == 0 else "debug", "spqlios-fma" if i == 0 else "nayuki-portable",
+                            ["--mode", "exact", "--t", t, "--basebit", bb, "--n_out", 1, "--log2count", (28 if thorough else 22) if i == 0 else 20,
+                             "--shard", 0, "--nshards", 1, "--seed", seed + i], timeout=7200))
+        for (ni, no) in ((1, 3), (5, 3)):
+            jobs.append(Job("multi-wide-t%d-bb%d-%d-%d" % (t, bb, ni, no), "drv_c08", "optim", "spqlios-fma",
+                            ["--mode", "multi", "--t", t, "--basebit", bb, "--n_in", ni, "--n_out", no, "--reps", 2000 if thorough else 500, "--seed", seed], weight=2))
     # long decompositions / large source dimensions (n_in * t far beyond the default 1024 x 8)
     for (t, bb, ni, no) in [(31, 1, 1024, 3), (17, 1, 1024, 2), (9, 2, 2048, 5), (8, 2, 4096, 3), (10, 3, 3000, 2), (16, 1, 2049, 1), (8, 2, 2048, 9), (3, 10, 8192, 2)]:
         jobs.append(Job("multi-large-t%d-bb%d-%d-%d" % (t, bb, ni, no), "drv_c08", "optim", "spqlios-fma",
